@@ -19,7 +19,7 @@ func basicType() parsec.Parser {
 	names := []string{
 		"int8", "uint8", "int16", "uint16", "int32", "uint32",
 		"int64", "uint64", "float32", "float64", "bool", "str",
-		"obj", "any", "unknown",
+		"obj", "any", "unknown", "nothing",
 	}
 	parsers := make([]interface{}, len(names))
 	for i, name := range names {
@@ -60,7 +60,7 @@ func tupleType(ctx *Context) parsec.Parser {
 	return parsec.And(
 		nodifyTuple,
 		parsec.Atom("Tuple<", "Tuple<"),
-		parsec.Many(
+		parsec.Kleene( // Tuple<> is the empty tuple
 			nodifyList,
 			ctx.typeParser,
 			parsec.Atom(",", ","),
@@ -672,6 +672,8 @@ func nodifyBasicType(nodes []signature.Node) signature.Node {
 		return signature.NewObjectType()
 	case "unknown":
 		return signature.NewUnknownType()
+	case "nothing":
+		return signature.NewVoidType()
 	default:
 		return fmt.Errorf("unknown type: %s", sig)
 	}
